@@ -119,7 +119,7 @@ reg('C02', 'other',
     T_VM, 'DESIGN.md §10.3')
 reg('C03', 'other',
     [_c03_sites, only(scanvm.rule_validator_entry, r'^result\|'), lexeval.rule_digit_ops, progress.rule_loops, progress.rule_recursion, scanvm.rule_scanner_total,
-     only(textvm.rule_tokenizer, r'^no-panic$'), only(textvm.rule_word_splitter, r'^no-panic$'), only(dsvm.rule_builder_cases, r'^no-panic$')],
+     only(textvm.rule_tokenizer, r'^no-panic$'), only(textvm.rule_word_splitter, r'^no-panic$'), only(lexeval.rule_split_closure, r'\|distinct$'), only(dsvm.rule_builder_cases, r'^no-panic$')],
     "B1 the complete inventory of panic-capable sites in the library MIR (Assert terminators + calls to partial callees) with each site discharged "
     "by a dominating guard (difference-constraint prover over branch facts), constant call-site arguments, constant constructor input or a named "
     "instance whose guards are checked; a site the prover cannot discharge is reported only if the bounded case tables of the abstract machine that "
